@@ -45,7 +45,7 @@ type targetBook struct {
 	byType map[reflect.Type]*heldTarget
 
 	pristine, reused, reusedDifferent, reusedNonZeroForZero, twice int
-	prepop, prepopNonZero, noDonor                              int
+	prepop, prepopNonZero, noDonor                                 int
 }
 
 type heldTarget struct {
